@@ -962,6 +962,68 @@ fn max_packet_plan(property: &'static str, scenario: &'static str, seed: u64, ru
     plan.sort();
     plan
 }
+/// Packets cut by the frame window. One side sends over a forward link that loses nothing and
+/// keeps order, with a frame window of a few frames, so that multi-fragment packets of the
+/// non-resend modes are cut across flushes by the window; the acknowledgements are held back for
+/// longer than the sender's sync timeout (the reverse link is dark for 2.2-8 s, more than once).
+/// Every fragment reaches the receiver, so every packet has to be delivered whole and in order.
+fn c04_gen_window_cut(seed: u64, run: u64, thorough: bool) -> Plan {
+    let mut r = Rng::keyed(&[seed, run, 0xc04_c07]);
+    let mut plan = Plan::new("C04", "a_window_cut", seed, run);
+    plan.fate_seed = Some(crate::rng::key(&[seed, run, 0xfa7e]));
+    let mut setup = ASetup::default_like();
+    let w = *r.pick(&[2u32, 3, 4, 8, 16]);
+    setup.win_frame = [w, w];
+    setup.packet_base = [r.u32() & 0xFFFFF, r.u32() & 0xFFFFF];
+    setup.frame_base = [r.u32(), r.u32()];
+    plan.endpoints = setup.endpoints();
+    plan.push(0, 0, Op::Create { ep: 0 });
+    plan.push(0, 1, Op::Create { ep: 1 });
+    let one_way = r.range(1_000, 60_000);
+    plan.push(0, 2, Op::Link { from: None, to: None, rule: clean_rule(one_way) });
+    let mut tag = 0u32;
+    let mut t = 50_000u64;
+    // warm-up: a few small packets so that an RTT estimate (and with it send credit) is in place
+    for _ in 0..r.range(2, 6) {
+        plan.push(t, 0x4000_0000 + tag, Op::Send { ep: 0, to: None, ch: r.below(3) as u8, mode: *r.pick(&[MODE_RELIABLE, MODE_UNRELIABLE]), len: r.range(12, 1200) as u32, tag });
+        tag += 1;
+        t += r.range(4 * one_way, 12 * one_way + 50_000);
+    }
+    t += 500_000;
+    for _ in 0..r.range(1, if thorough { 5 } else { 3 }) {
+        // acknowledgements vanish; right then packets of more fragments than the window has room
+        let mut dark = clean_rule(one_way);
+        dark.blackout = true;
+        plan.push(t, 2, Op::Link { from: Some(1), to: Some(0), rule: dark });
+        let mut ts = t + r.below(50_000);
+        for _ in 0..r.range(1, 3) {
+            let frags = r.range(w as u64 + 1, 4 * w as u64 + 2);
+            let len = (frags * FRAG - r.below(FRAG)) as u32;
+            let mode = *r.pick(&[MODE_UNRELIABLE, MODE_UNRELIABLE, MODE_UNRELIABLE, MODE_PERSISTENT, MODE_RELIABLE]);
+            plan.push(ts, 0x4000_0000 + tag, Op::Send { ep: 0, to: None, ch: r.below(3) as u8, mode, len: len.max(12), tag });
+            tag += 1;
+            ts += r.below(30_000);
+        }
+        let outage = r.range(2_200_000, 8_000_000);
+        plan.push(t + outage, 2, Op::Link { from: Some(1), to: Some(0), rule: clean_rule(one_way) });
+        t += outage + r.range(1_000_000, 4_000_000);
+    }
+    // the outages cost the sender most of its allowed rate: the run lasts until everything has
+    // been delivered and acknowledged, or for the liveness budget of C02 (s/64 floor)
+    let horizon = t + 900_000_000 + 128_000_000 * 40;
+    let p0 = r.range(5_000, 50_000);
+    let p1 = r.range(5_000, 50_000);
+    plan.push(r.below(p0), 3, Op::StepEvery { ep: 0, period_us: p0, until_us: horizon });
+    plan.push(r.below(p1), 3, Op::StepEvery { ep: 1, period_us: p1, until_us: horizon });
+    plan.params.insert("end_when_quiescent".into(), 1.0);
+    plan.end_us = horizon;
+    plan.sort();
+    plan
+}
+fn c04_oracles_window_cut(plan: &Plan) -> Vec<Box<dyn Oracle>> {
+    with_states(vec![Box::new(TransportOracle::new("C04", TransportClauses { order: true, frame_size: true, ideal: true, ..Default::default() }, plan))])
+}
+
 fn c04_gen_max(seed: u64, run: u64, _thorough: bool) -> Plan {
     max_packet_plan("C04", "a_max_packet", seed, run)
 }
@@ -976,6 +1038,8 @@ pub fn c04() -> CheckDef {
                 what: "payload length swept over {0,1,2,11..13,63..65,255..257, k*1448-2..k*1448+2 for k=1..8,16,45, 1 MB} by run index; fragments permuted, duplicated, partially lost and resent, interleaved with other packets, flush budgets that cut packets; then a clean link until everything Reliable has arrived" },
             Family { name: "b_lengths", world: "B", weight: 200, gen: c04_gen_b, oracles: c04_oracles_b, adversary: None, keep_workload: false, custom: None,
                 what: "the same length sweep through real Client/Server (both directions, several clients), bounded by the configured max_packet_size / max_receive_alloc; in a quarter of the runs the last swept packet is followed at once by a graceful disconnect() and must still arrive whole before the peer sees Disconnect" },
+            Family { name: "a_window_cut", world: "A", weight: 60, gen: c04_gen_window_cut, oracles: c04_oracles_window_cut, adversary: None, keep_workload: false, custom: None,
+                what: "one-way traffic over a forward link that loses nothing and keeps order, frame windows of 2-16 frames, packets of more fragments than the window has room for (mostly Unreliable), acknowledgements held back for 2.2-8 s at a time (longer than the sender's sync timeout): every fragment arrives, so every packet is delivered whole, once and in order" },
             Family { name: "a_rewrite", world: "A", weight: 200, gen: c04_gen_rewrite, oracles: c04_oracles, adversary: Some(c04_adv), keep_workload: true, custom: None,
                 what: "same sweep, plus a hostile middlebox that appends to genuine frames a forged fragment for a packet in progress whose header disagrees with the first fragment seen (last-fragment id, channel or parent leads)" },
         ],
